@@ -216,6 +216,12 @@ pub fn check_case(case: &Case, reg: &qrun::Registry, dynamic: bool) -> CaseOutco
                     out.violation = Some(fmt_issue("tree-shaken", i, &shaken));
                     return out;
                 }
+                // an index that is in range but refers to the wrong entry: every function kept by
+                // tree-shaking must be a function of the original up to renumbering
+                if let Some(m) = bcv::renaming_issue(&bc, &shaken, true) {
+                    out.violation = Some(("tree-shaken:reference-not-preserved".into(), format!("[tree-shaken] {m}")));
+                    return out;
+                }
                 if shaken.functions.len() < bc.functions.len() || shaken.types.len() < bc.types.len() {
                     out.classes.push("form:tree-shaken(removed something)".into());
                 } else {
@@ -264,6 +270,13 @@ pub fn check_case(case: &Case, reg: &qrun::Registry, dynamic: bool) -> CaseOutco
                     out.violation = Some(fmt_issue("merged", i, &mbc));
                     return out;
                 }
+                // likewise every function of the merged-in form must reappear in the environment's
+                // program up to renumbering
+                let this = if case.before.len() % 2 == 0 { bc.clone() } else { c.program.to_bytecode_optimized(entry) };
+                if let Some(m) = bcv::renaming_issue(&this, &mbc, false) {
+                    out.violation = Some(("merged:reference-not-preserved".into(), format!("[merged] {m}")));
+                    return out;
+                }
                 out.classes.push(format!("form:merged-behind-{n_before}"));
             }
             Err(p) => {
@@ -274,6 +287,8 @@ pub fn check_case(case: &Case, reg: &qrun::Registry, dynamic: bool) -> CaseOutco
     }
     out
 }
+
+pub const UNUSED_PREFIX: &str = "'unused9 = Uu9['int, Vv9['bin, (q: Xx9)]] | Ww9[(p: 'int)]\n";
 
 pub fn std_import_sources() -> Vec<String> {
     let mut v = Vec::new();
@@ -337,6 +352,16 @@ pub fn run(ctx: &Ctx) -> i32 {
             let case = Case { source: src.clone(), before };
             let o = check_case(&case, &reg, true);
             record(&case, &o, &mut out);
+            // the same program after types nothing refers to: tree-shaking drops them and has to
+            // renumber every later id (types, tuples and the ids nested inside them)
+            if o.compiled {
+                let case = Case { source: format!("{UNUSED_PREFIX}{src}"), before: case.before.clone() };
+                let o = check_case(&case, &reg, false);
+                if o.compiled {
+                    stats.class("unused-types-registered-first");
+                }
+                record(&case, &o, &mut out);
+            }
         }
         // 2. generated: token-level mutants of corpus programs that still compile
         let strat = (any::<u16>(), 1u8..5, any::<u16>(), any::<u16>(), prop::collection::vec(any::<u16>(), 0..3));
@@ -425,7 +450,7 @@ pub fn run(ctx: &Ctx) -> i32 {
         ctx,
         stats: &stats,
         violations,
-        rule: "programs: every harvested source (tests, spec fences, std, examples), an import of every std module, and single-token mutants of those that still compile; each verified per function on all paths in three forms (as compiled, tree-shaken, merged into an environment behind 0-3 other programs); non-trivial = program containing a function with >= 1 control-flow join and a Store after a conditional jump; distinct by source text".into(),
+        rule: "programs: every harvested source (tests, spec fences, std, examples), the same source after an alias nothing refers to, an import of every std module, and single-token mutants of those that still compile; each verified per function on all paths in three forms (as compiled, tree-shaken, merged into an environment behind 0-3 other programs), and each derived form compared with the original up to renumbering of its tables (every function, with each index replaced by what it refers to, must reappear); non-trivial = program containing a function with >= 1 control-flow join and a Store after a conditional jump; distinct by source text".into(),
         assumptions: vec![
             "instruction stack effects are modelled from the executor's handlers and cross-checked dynamically (quantum 1) on every sequential corpus program".into(),
             "code after an unconditional jump or tail call is unreachable and not visited".into(),
